@@ -1066,6 +1066,11 @@ class Fn:
             some = self.edges_of_call_variant(cs, "Some")
             none = self.edges_of_call_variant(cs, "None")
             if len(some) != 1 or len(none) != 1:
+                # a later re-test of the same Option (left over from drop elaboration after a
+                # `break`) is not the loop's test: the test is the switch right after `next`
+                some = {e2 for e2 in some if e2[0] == cs.target}
+                none = {e2 for e2 in none if e2[0] == cs.target}
+            if len(some) != 1 or len(none) != 1:
                 continue
             some_e = next(iter(some))
             none_e = next(iter(none))
